@@ -51,6 +51,8 @@ def rule_index_guards(rep, prog, adt=BITMAP, field="map", size_field="size"):
                 # and the facts in the method's own terms, with what the iterator chain guarantees about the item
                 idx = deep_strip(eff.in_parent(b, idx, tag_own=True)[1])
                 facts = effects.facts_in_parent(eff, b, c.pos)
+            # `for n in (a..=b).take_while(|&n| n < self.size)`: the item satisfies the predicate of the stage it came through
+            facts = list(facts) + effects.item_facts(eff, b, [idx])
             page = c08.word_index(idx)
             inst = f"{b.key}|map[{tstr(idx)}]"
             if page is None:
